@@ -32,7 +32,7 @@ theorem mem_conflicts {d e : Defn} {o p : Name} :
   simp only [conflicts, List.mem_flatMap, List.mem_filterMap, List.mem_filter,
     List.contains_eq_mem, decide_eq_true_eq]
   constructor
-  · rintro ⟨a, ⟨ha1, ha2⟩, b, ⟨hb1, hb2⟩, hif⟩
+  · rintro ⟨a, ⟨ha2, ha1⟩, b, ⟨hb2, hb1⟩, hif⟩
     split at hif
     · rename_i hne
       simp only [Option.some.injEq, Prod.mk.injEq] at hif
@@ -42,7 +42,7 @@ theorem mem_conflicts {d e : Defn} {o p : Name} :
       simp [hiff] at hne
     · cases hif
   · rintro ⟨h1, h2, h3, h4, h5⟩
-    refine ⟨o, ⟨h1, h2⟩, p, ⟨h3, h4⟩, ?_⟩
+    refine ⟨o, ⟨h2, h1⟩, p, ⟨h4, h3⟩, ?_⟩
     rw [if_pos]
     by_cases hd : (o, p) ∈ d.pairs <;> by_cases he : (o, p) ∈ e.pairs <;> simp [hd, he] at h5 ⊢
 
@@ -57,6 +57,52 @@ theorem guard_iff {d e : Defn} {ig : Bool} :
     (!ig && !(conflicts d e).isEmpty) = true ↔ ig = false ∧ Conflict d e := by
   rw [← conflicts_nonempty_iff]
   cases ig <;> simp
+
+/-! ### order of the conflict list (right operand's table order) -/
+
+theorem conflicts_row (l r : Defn) (o : Name) (ps : List Name) :
+    ((ps.filter l.props.contains).filterMap fun p =>
+      if l.pairs.contains (o, p) != r.pairs.contains (o, p) then some (o, p) else none) =
+    (ps.map fun p => (o, p)).filter fun q =>
+      l.props.contains q.2 && (l.pairs.contains q != r.pairs.contains q) := by
+  induction ps with
+  | nil => rfl
+  | cons a t ih =>
+    by_cases h1 : l.props.contains a = true
+    · by_cases h2 : (l.pairs.contains (o, a) != r.pairs.contains (o, a)) = true
+      · simp only [List.filter_cons, h1, h2, if_true, List.filterMap_cons, List.map_cons, ih,
+          Bool.and_self]
+      · simp only [List.filter_cons, h1, h2, if_true, List.filterMap_cons, List.map_cons, ih,
+          Bool.true_and, Bool.false_eq_true, if_false]
+    · simp only [List.filter_cons, h1, if_false, List.map_cons, ih, Bool.false_and,
+        Bool.false_eq_true]
+
+/-- the conflict list is the right operand's table order, filtered -/
+theorem conflicts_eq_filter (l r : Defn) :
+    conflicts l r = (r.objs.flatMap fun o => r.props.map fun p => (o, p)).filter fun q =>
+      l.objs.contains q.1 && (l.props.contains q.2 && (l.pairs.contains q != r.pairs.contains q)) := by
+  unfold conflicts
+  simp only
+  induction r.objs with
+  | nil => rfl
+  | cons a t ih =>
+    rw [List.flatMap_cons, List.filter_append, ← ih]
+    by_cases h : l.objs.contains a = true
+    · rw [List.filter_cons, if_pos h, List.flatMap_cons, conflicts_row]
+      congr 1
+      apply List.filter_congr
+      intro q hq
+      simp only [List.mem_map] at hq
+      obtain ⟨p, _, rfl⟩ := hq
+      simp only [h, Bool.true_and]
+    · rw [List.filter_cons, if_neg h]
+      symm
+      convert List.nil_append _
+      rw [List.filter_eq_nil_iff]
+      intro q hq
+      simp only [List.mem_map] at hq
+      obtain ⟨p, _, rfl⟩ := hq
+      simp only [h, Bool.false_and, Bool.false_eq_true, not_false_eq_true]
 
 /-! ### the constructor -/
 
